@@ -1098,6 +1098,7 @@ SHIM_NOTES = [
     "autoray backend alias: SymC scalars dispatch to numpy",
     "default.qubit create_initial_state result viewed as dtype=object",
     "qp.math.allclose/isclose on symbolic data are exact equalities (the |x|<=atol slab is outside the claim)",
+    "PauliSentence.dot keeps an object buffer for object-dtype vectors (np.zeros_like in pennylane.pauli.pauli_arithmetic)",
 ]
 
 
@@ -1304,6 +1305,23 @@ def install_shims():
         except Exception:
             pass
     pm.is_abstract = is_abstract
+
+    # --- PauliSentence.dot writes into a complex128 buffer: keep object prototypes as object buffers
+    class _NpZerosLike:
+        def __getattr__(self, k):
+            return getattr(np, k)
+
+        @staticmethod
+        def zeros_like(x, dtype=None, **k):
+            if isinstance(x, np.ndarray) and x.dtype == object:
+                return np.zeros(x.shape, dtype=object)
+            return np.zeros_like(x, dtype=dtype, **k)
+
+    try:
+        pa = importlib.import_module("pennylane.pauli.pauli_arithmetic")
+        pa.np = _NpZerosLike()
+    except Exception:
+        pass
 
     # --- initial state of default.qubit as object array
     simmod = importlib.import_module("pennylane.devices.qubit.simulate")
